@@ -206,7 +206,11 @@ impl Label {
     /// Panics if `start` is beyond the end of `slice`.
     #[must_use]
     pub fn iter_slice(slice: &[u8], start: usize) -> SliceLabelsIter<'_> {
-        SliceLabelsIter { slice, start }
+        SliceLabelsIter {
+            slice,
+            start,
+            budget: 255,
+        }
     }
 
     /// Returns a reference to the underlying octets slice.
@@ -742,6 +746,12 @@ pub struct SliceLabelsIter<'a> {
     ///
     /// As a life hack, we use `usize::MAX` to fuse the iterator.
     start: usize,
+
+    /// The number of octets the remaining labels may still occupy.
+    ///
+    /// A domain name is at most 255 octets long. Running out of budget means
+    /// that compression pointers form a loop; the iterator stops then.
+    budget: usize,
 }
 
 impl<'a> Iterator for SliceLabelsIter<'a> {
@@ -755,6 +765,11 @@ impl<'a> Iterator for SliceLabelsIter<'a> {
         loop {
             match Label::split_from(&self.slice[self.start..]) {
                 Ok((label, _)) => {
+                    if label.len() + 1 > self.budget {
+                        self.start = usize::MAX;
+                        return None;
+                    }
+                    self.budget -= label.len() + 1;
                     if label.is_root() {
                         self.start = usize::MAX;
                     } else {
@@ -764,7 +779,7 @@ impl<'a> Iterator for SliceLabelsIter<'a> {
                 }
                 Err(SplitLabelError::Pointer(pos)) => {
                     let pos = pos as usize;
-                    if pos > self.start {
+                    if pos >= self.start {
                         // Incidentally, this also covers the case where
                         // pos points past the end of the message.
                         self.start = usize::MAX;
